@@ -97,6 +97,7 @@ def boundary_codes(f: dict) -> list[tuple[str, int]]:
     elif k == "float":
         for name, x in (("zero", 0.0), ("one", 1.0), ("neg", -1.5), ("big", 3.0e38), ("tiny", 1e-40)):
             out.append((name, struct.unpack("<I", struct.pack("<f", x))[0]))
+        out += [("allones", 0xFFFFFFFF), ("nan", 0x7FC00000), ("minus-zero", 0x80000000)]       # not available / NaN / -0.0
     seen, uniq = set(), []
     for name, c in out:
         if c not in seen:
